@@ -798,4 +798,176 @@ Proof.
     as [fl' [ups E]]; [intros k t []|].
   unfold merge. rewrite Eds_s, Eds_t. cbn [app] in E. apply (merge_roots_children _ _ _ _ _ _ _ _ _ E).
 Qed.
+
+(* ------------------------------------------------------------------------------------------- *)
+(* composition of independent changes                                                            *)
+(* ------------------------------------------------------------------------------------------- *)
+Lemma dd_match_idx_absent l i : (forall x, In x l -> dd_id sch x <> Some i) -> dd_match_idx sch l (Some i) = None.
+Proof.
+  intro H. cbn [dd_match_idx]. destruct (find_idx (fun d => has_id sch i (dd_node d)) l) as [k|] eqn:E; [|reflexivity].
+  exfalso. destruct (find_idx_split _ _ _ E) as [l1 [x [l2 [-> [_ [Hx _]]]]]]. apply dd_id_iff in Hx.
+  apply (H x); [apply in_or_app; right; left; reflexivity|exact Hx].
+Qed.
+
+Lemma dd_ins_last_perm l n : Permutation (dd_ins_last l n) (n :: l).
+Proof.
+  induction l as [|b l IH]; cbn [dd_ins_last]; [reflexivity|].
+  destruct (dd_sid n <? dd_sid b); [reflexivity|]. rewrite IH. apply perm_swap.
+Qed.
+
+(* the not-found case of lyd_diff_merge_r *)
+Lemma merge_r_add inh_s src inh_t ts i sop :
+  userordered sch (dd_sid src) = false -> eff_op inh_s (dd_op src) = Some sop ->
+  dd_id sch src = Some i -> (forall x, In x ts -> dd_id sch x <> Some i) ->
+  merge_r sch mdflt inh_s src inh_t ts =
+    let n := dd_set_op (redup src) (Some sop) in
+    let sg := if dd_dflt n then [] else [SDel] in
+    match is_redundant sch (Some sop) n with
+    | Err e => Err e
+    | Ok true => Ok (ts, sg ++ [SSet (forallb dd_dflt ts)])
+    | Ok false => Ok (dd_ins_last ts n, sg)
+    end.
+Proof.
+  intros Hu Hs Hi Hn. destruct src as [s v f op od ov ch]. cbn [dd_sid dd_op] in *.
+  cbn [merge_r]. rewrite Hu, Hs, Hi, (dd_match_idx_absent ts i Hn). reflexivity.
+Qed.
+
+(* a node produced by lyd_diff_siblings is never redundant *)
+Lemma sp_not_redundant inh d oa ob e :
+  Sp sch inh d oa ob -> eff_op inh (dd_op d) = Some e ->
+  is_redundant sch (Some e) (dd_set_op (redup d) (Some e)) = Ok false.
+Proof.
+  intros H He.
+  inversion H as [inh0 d0 a i He' Ha Hdd Hwf | inh0 d0 b i He' Hb Hdd Hwf | inh0 d0 a i He' Hk Hd Ha Hs Hne Hov Hod Hch0
+                 | inh0 d0 a i He' Hk Hd Ha Hod Hch0 Hnany Hreal
+                 | inh0 d0 a i chb He' Hk Hd Ha Hs Hnk Hlev Sa Hsa Sb Hsb Hfl Hidb Hkey Hnkey Hidk Hkch]; subst;
+    rewrite He' in He; inversion He; subst e; try reflexivity.
+  - (* none on a term: the flag really changes *)
+    destruct d as [s v fl op od ov ch]. cbn [dd_op dd_sid dd_dflt dd_odflt dd_ch] in *. subst od ch.
+    cbn [redup map forallb dd_set_op]. unfold is_redundant, dd_is_term. cbn [dd_sid dd_odflt dd_dflt]. rewrite Hk, andb_true_r.
+    f_equal. destruct (d_dflt a), fl; try reflexivity; exfalso; apply Hreal; reflexivity.
+  - (* none on an inner node: it has children *)
+    destruct d as [s v fl op od ov ch]. cbn [dd_op dd_sid dd_ch] in *.
+    cbn [redup dd_set_op]. unfold is_redundant, dd_is_term. cbn [dd_sid dd_ch]. rewrite Hk.
+    unfold has_nokey_child. rewrite dd_nokeys_map_redup. destruct (dd_nokeys sch ch); [congruence|reflexivity].
+Qed.
+
+Lemma NoDup_incl_perm {A} (s l : list A) : NoDup s -> incl s l -> exists r, Permutation l (s ++ r).
+Proof.
+  revert l. induction s as [|x s IH]; intros l Hn Hi; [exists l; reflexivity|].
+  inversion Hn as [|? ? Hx Hn']; subst.
+  assert (Hxl : In x l) by (apply Hi; left; reflexivity).
+  apply in_split in Hxl. destruct Hxl as [l1 [l2 ->]].
+  destruct (IH (l1 ++ l2) Hn') as [r Hr].
+  - intros y Hy. assert (Hyl : In y (l1 ++ x :: l2)) by (apply Hi; right; exact Hy).
+    apply in_app_or in Hyl. apply in_or_app. destruct Hyl as [H|[H|H]]; [left; exact H| |right; exact H].
+    subst y. contradiction.
+  - exists r. cbn [app]. rewrite <- Hr. symmetry. apply Permutation_middle.
+Qed.
+
+Lemma sp_eff inh d oa ob : Sp sch inh d oa ob -> exists e, eff_op inh (dd_op d) = Some e.
+Proof. destruct 1; eexists; eassumption. Qed.
+
+Lemma dd_op_redup d : dd_op (redup d) = dd_op d.
+Proof. destruct d; reflexivity. Qed.
+
+(* every source root about an identity the diff does not hold yet is added *)
+Lemma merge_add_all (Hnouo : schema_nouo = true) : forall its2 ts,
+  Forall (fun it => Sp sch None (it_d it) (it_a it) (it_b it)) its2 -> NoDup (itIds sch its2) ->
+  (forall it x, In it its2 -> In x ts -> dd_id sch x <> dd_id sch (it_d it)) ->
+  exists ts', merge_roots sch mdflt (map it_d its2) ts = Ok ts' /\
+              Permutation ts' (map (fun it => redup (it_d it)) its2 ++ ts).
+Proof.
+  induction its2 as [|it its2 IH]; intros ts Hsp Hnd Hdis.
+  - exists ts. split; reflexivity.
+  - pose proof (Forall_inv Hsp) as Hs. pose proof (Forall_inv_tail Hsp) as Hsp'.
+    destruct (sp_ids _ _ _ _ Hs) as [i [Hi _]]. destruct (sp_eff _ _ _ _ Hs) as [e He].
+    assert (Hop : dd_op (it_d it) = Some e) by (destruct (dd_op (it_d it)); cbn in He; congruence).
+    cbn [map merge_roots].
+    rewrite (merge_r_add None (it_d it) None ts i e (nouo_all Hnouo _) He Hi).
+    2:{ intros x Hx. rewrite <- Hi. apply (Hdis it x (or_introl eq_refl) Hx). }
+    cbn zeta. rewrite (sp_not_redundant None _ _ _ e Hs He).
+    assert (En : dd_set_op (redup (it_d it)) (Some e) = redup (it_d it)).
+    { rewrite <- Hop, <- dd_op_redup. apply dd_set_op_same. }
+    rewrite En. cbn [itIds map] in Hnd. inversion Hnd as [|? ? Hnot Hnd']; subst.
+    destruct (IH (dd_ins_last ts (redup (it_d it))) Hsp' Hnd') as [ts' [E Hp]].
+    + intros it' x Hit' Hx. apply (Permutation_in _ (dd_ins_last_perm ts _)) in Hx. destruct Hx as [<-|Hx].
+      * rewrite dd_id_redup. intro Eq. apply Hnot. rewrite Eq. apply in_map_iff. exists it'. split; [reflexivity|exact Hit'].
+      * apply (Hdis it' x); [right; exact Hit'|exact Hx].
+    + exists ts'. split; [exact E|]. rewrite Hp, dd_ins_last_perm. cbn [map app]. symmetry. apply Permutation_middle.
+Qed.
+
+(* C13, composition of changes that touch different top-level identities *)
+Theorem merge_apply_disjoint (Hnouo : schema_nouo = true) fa fb fc d1 d2 :
+  wfb sch fa = true -> wfb sch fb = true -> wfb sch fc = true ->
+  diff sch true fa fb = Ok d1 -> diff sch true fb fc = Ok d2 ->
+  (forall s t, In s d2 -> In t d1 -> dd_id sch s <> dd_id sch t) ->
+  exists m, merge sch mdflt (map redup d1) d2 = Ok m /\ apply sch m fa = Ok fc.
+Proof.
+  intros Ha Hb Hc E1 E2 Hdis.
+  destruct (diff_sp sch fa fb Ha Hb) as [d1' [E1' Hsp1]]. assert (d1' = d1) by congruence. subst d1'.
+  destruct (diff_sp sch fb fc Hb Hc) as [d2' [E2' Hsp2]]. assert (d2' = d2) by congruence. subst d2'.
+  assert (Hsp1' : LevelSp sch (Sp sch None) (map redup d1) fa fb).
+  { apply (levelsp_map sch (Sp sch None) (Sp sch None) redup); [apply dd_id_redup| |exact Hsp1].
+    intros d oa ob _ H. apply redup_sp. exact H. }
+  destruct Hsp1' as [its1 [unch1 [Eds1 [Hs1 [Hnd1 [PA1 PB1]]]]]].
+  destruct Hsp2 as [its2 [unch2 [Eds2 [Hs2 [Hnd2 [PB2 PC2]]]]]].
+  pose proof (wfb_sibs sch _ Ha) as Wa. pose proof (wfb_sibs sch _ Hb) as Wb. pose proof (wfb_sibs sch _ Hc) as Wc.
+  pose proof (so_nodup _ _ (ws_sibs _ _ Wb)) as Nb.
+  (* the two diffs talk about different identities *)
+  assert (Hdis' : forall it2 it1, In it2 its2 -> In it1 its1 -> dd_id sch (it_d it2) <> dd_id sch (it_d it1)).
+  { intros it2 it1 H2 H1. assert (Hin1 : In (it_d it1) (map redup d1)) by (rewrite Eds1; apply in_map; exact H1).
+    apply in_map_iff in Hin1. destruct Hin1 as [t [Et Ht]]. rewrite <- Et, dd_id_redup.
+    apply Hdis; [rewrite Eds2; apply in_map; exact H2|exact Ht]. }
+  destruct (merge_add_all Hnouo its2 (map it_d its1) Hs2 Hnd2) as [m [Em Hpm]].
+  { intros it x Hit Hx. apply in_map_iff in Hx. destruct Hx as [it1 [<- H1]]. intro Eq. apply (Hdis' it it1 Hit H1). symmetry. exact Eq. }
+  exists m. split; [unfold merge; rewrite Eds1, Eds2; exact Em|].
+  (* the merged diff means [fa becomes fc] *)
+  set (its2' := map (fun it => mkitem (redup (it_d it)) (it_a it) (it_b it)) its2).
+  assert (EA2 : itA its2' = itA its2) by (unfold its2', itA; rewrite flat_map_map_comp; reflexivity).
+  assert (EB2 : itB its2' = itB its2) by (unfold its2', itB; rewrite flat_map_map_comp; reflexivity).
+  rewrite Forall_forall in Hs1, Hs2.
+  (* what diff 2 changes is unchanged by diff 1 and vice versa *)
+  assert (I1 : incl (itA its2) unch1).
+  { intros x Hx. destruct (in_itA _ _ Hx) as [it2 [H2 Ea]].
+    assert (Hxb : In x fb) by (apply (Permutation_in _ (Permutation_sym PB2)), in_or_app; left; exact Hx).
+    apply (Permutation_in _ PB1) in Hxb. apply in_app_or in Hxb. destruct Hxb as [Hxb|Hxb]; [exfalso|exact Hxb].
+    destruct (in_itB _ _ Hxb) as [it1 [H1 Eb]].
+    destruct (sp_ids _ _ _ _ (Hs2 it2 H2)) as [j2 [Hj2 [Hja2 _]]]. destruct (sp_ids _ _ _ _ (Hs1 it1 H1)) as [j1 [Hj1 [_ Hjb1]]].
+    apply (Hdis' it2 it1 H2 H1). rewrite Hj2, Hj1, <- (Hja2 x Ea), <- (Hjb1 x Eb). reflexivity. }
+  assert (I2 : incl (itB its1) unch2).
+  { intros x Hx. destruct (in_itB _ _ Hx) as [it1 [H1 Eb]].
+    assert (Hxb : In x fb) by (apply (Permutation_in _ (Permutation_sym PB1)), in_or_app; left; exact Hx).
+    apply (Permutation_in _ PB2) in Hxb. apply in_app_or in Hxb. destruct Hxb as [Hxb|Hxb]; [exfalso|exact Hxb].
+    destruct (in_itA _ _ Hxb) as [it2 [H2 Ea]].
+    destruct (sp_ids _ _ _ _ (Hs2 it2 H2)) as [j2 [Hj2 [Hja2 _]]]. destruct (sp_ids _ _ _ _ (Hs1 it1 H1)) as [j1 [Hj1 [_ Hjb1]]].
+    apply (Hdis' it2 it1 H2 H1). rewrite Hj2, Hj1, <- (Hja2 x Ea), <- (Hjb1 x Eb). reflexivity. }
+  assert (Nbn : NoDup fb) by (apply (NoDup_map_inv (inst_id sch)); exact Nb).
+  assert (NA2 : NoDup (itA its2)) by (apply (Permutation_NoDup PB2) in Nbn; apply (NoDup_app_l _ _ Nbn)).
+  assert (NB1 : NoDup (itB its1)) by (apply (Permutation_NoDup PB1) in Nbn; apply (NoDup_app_l _ _ Nbn)).
+  destruct (NoDup_incl_perm _ _ NA2 I1) as [U HU]. destruct (NoDup_incl_perm _ _ NB1 I2) as [U' HU'].
+  assert (HUU : Permutation U U').
+  { apply (Permutation_app_inv_l (itB its1 ++ itA its2)). rewrite <- !app_assoc.
+    rewrite <- HU, <- PB1. rewrite (Permutation_app_swap_app (itB its1) (itA its2) U'), <- HU', <- PB2. reflexivity. }
+  apply (apply_level_sp sch m fa fc); [|apply (ws_sibs _ _ Wa)|apply wf_allsome, (ws_nodes _ _ Wa)|apply (ws_sibs _ _ Wc)].
+  apply (LevelSp_perm sch _ (map it_d (its2' ++ its1))).
+  { rewrite Hpm, map_app. apply Permutation_app_tail. unfold its2'. rewrite map_map. reflexivity. }
+  exists (its2' ++ its1), U. split; [reflexivity|].
+  split.
+  { apply Forall_app. split; apply Forall_forall.
+    - intros it Hit. unfold its2' in Hit. apply in_map_iff in Hit. destruct Hit as [it2 [<- H2]]. cbn [it_d it_a it_b].
+      apply redup_sp, Hs2, H2.
+    - intros it Hit. apply Hs1, Hit. }
+  split.
+  { unfold itIds. rewrite map_app. apply NoDup_app_disjoint.
+    - unfold its2'. rewrite map_map. cbn [it_d]. erewrite map_ext; [exact Hnd2|]. intro it. apply dd_id_redup.
+    - exact Hnd1.
+    - intros x Hx2 Hx1. unfold its2' in Hx2. rewrite map_map in Hx2. cbn [it_d] in Hx2.
+      apply in_map_iff in Hx2. destruct Hx2 as [it2 [E2x H2]]. apply in_map_iff in Hx1. destruct Hx1 as [it1 [E1x H1]].
+      apply (Hdis' it2 it1 H2 H1). rewrite <- (dd_id_redup sch (it_d it2)), E2x, E1x. reflexivity. }
+  unfold itA, itB. rewrite !flat_map_app. fold (itA its2') (itA its1) (itB its2') (itB its1). rewrite EA2, EB2.
+  split.
+  - rewrite PA1, HU. rewrite <- !app_assoc. apply Permutation_app_swap_app.
+  - rewrite PC2, HU', HUU. rewrite <- !app_assoc. reflexivity.
+Qed.
 End WithSchema.
